@@ -620,7 +620,16 @@ pub fn eval_object<'a>(
 ) -> Result<(Expr<'a>, AnnRef)> {
     let mut props = Vec::new();
     for prop in object.properties() {
-        props.push(cast_property(eval_any(ctx, prop, AnnRef::default())?));
+        let p = cast_property(eval_any(ctx, prop, AnnRef::default())?);
+        // An object declares each of its properties once.
+        if props.iter().any(|q: &Property| q.name == p.name) {
+            return Err(
+                Error::new(Kind::InvalidIdentifier, "property already exists")
+                    .with(&p.name)
+                    .at(prop.span()),
+            );
+        }
+        props.push(p);
     }
     let obj = Object { props };
     let expr = Expr::Object(Box::new(obj));
